@@ -1,13 +1,26 @@
-use nvh::props::c09::Case;
-use nvh::tools::chain::{run_spec_probed, Keep};
+use nvh::props::c18::Case;
+use nvh::props::c17::esh_reference;
 use nvh::tools::density::LogDensity;
+use nvh::tools::spy::Spy;
+use nuts_rs::{Chain, CpuMath, Settings};
+use nuts_rs::rand::SeedableRng;
 fn main() {
     nvh::engine::install_quiet_panic_hook();
     let p = std::env::args().nth(1).unwrap();
     let v: serde_json::Value = serde_json::from_str(&std::fs::read_to_string(p).unwrap()).unwrap();
     let c: Case = serde_json::from_value(v["case"].clone()).unwrap();
-    let (h, probes) = run_spec_probed(&c.spec, LogDensity::new(c.dens.clone()), &c.init, c.spec.num_tune as usize + 3, Keep::None).unwrap();
-    for (t, d) in h.draws.iter().enumerate() {
-        println!("t={t} idx={:?} tid={:?} upd={:?} step={:?} bar={:?} acc={:?} sym={:?} nsteps={:?} evals={} probe={:?}", d.i64("index_in_trajectory"), d.i64("transformation_index"), d.i64("transformation_update_id"), d.f64("step_size"), d.f64("step_size_bar"), d.f64("mean_tree_accept"), d.f64("mean_tree_accept_sym"), d.u64("n_steps"), d.eval_range.1 - d.eval_range.0, probes[t + 1]);
-    }
+    let nvh::tools::chain::AnySettings::DiagMclmc(s) = c.spec.build() else { panic!() };
+    let math = Spy::recording(CpuMath::new(LogDensity::new(c.dens.clone())));
+    let mut rng = nuts_rs::rand::rngs::ChaCha8Rng::seed_from_u64(c.spec.seed);
+    let mut chain = s.new_chain(0, math, &mut rng);
+    chain.set_position(&c.init).unwrap();
+    for _ in 0..57 { let _ = chain.expanded_draw(); }
+    let m = chain.math();
+    let (g, before, step, after, dke) = &m.rec.esh[21];
+    let nb = before.iter().map(|x| x*x).sum::<f64>().sqrt();
+    let gn = g.iter().map(|x| x*x).sum::<f64>().sqrt();
+    let alpha: f64 = before.iter().zip(g).map(|(p,g)| p*g/gn).sum();
+    println!("nb-1={:e} gn={gn:e} step={step} delta={:e} alpha={alpha:.17} after={after:?} dke={dke:.17}", nb-1.0, step*gn/4.0);
+    let (e, d) = esh_reference(g, before, *step);
+    println!("ref dke={d:.17} ref={e:?}");
 }
